@@ -223,7 +223,7 @@ PROPERTIES = {
                 harnesses=[dict(func="VerifC13ClientImports", reach=["C13/client-imports/decided"], quick=dict(budget=400, parts=8), thorough=dict(budget=1200, parts=16)),
                            dict(func="VerifC13CodecLocals", reach=["C13/codec-locals/decided"], quick=dict(budget=400, parts=8), thorough=dict(budget=1200, parts=16)),
                            dict(func="VerifC13TSRouteConsts", reach=["C13/ts/decided", "C13/ts/path-and-query"], quick=dict(budget=100), thorough=dict(budget=300)),
-                           dict(func="VerifC13GoIdentifiers", reach=["C13/idents/decided", "C13/idents/kf"], quick=dict(budget=400, parts=4), thorough=dict(budget=1200, parts=8)),
+                           dict(func="VerifC13GoIdentifiers", reach=["C13/idents/decided", "C13/idents/irregular"], quick=dict(budget=400, parts=4), thorough=dict(budget=1200, parts=8)),
                            dict(func="VerifC13OneMarshalerPerType", reach=["C13/marshalers/decided", "C13/marshalers/kf"], quick=dict(budget=200), thorough=dict(budget=600)),
                            dict(func="VerifC13OneofWrapperNames", reach=["C13/oneof-names/decided"], quick=dict(budget=100), thorough=dict(budget=300)),
                            dict(func="VerifC13PrintfArity", reach=["C13/printf/decided"], quick=dict(budget=200), thorough=dict(budget=600))],
